@@ -74,8 +74,8 @@ def distance(a, b):
 
 def select_quick(lattice, seed):
     """(1) every compatible configuration one factor away from a base configuration: the default (WebRtc, data
-    channel) and, per direct mode, audio+video with everything else default; (2) in Rtp mode with audio+video the
-    full product of the per-side SDP compatibility modes, the offerer and who renegotiates (transport layout per m-line
+    channel) and, per direct mode, audio+video with everything else default; (2) per direct mode with audio+video the
+    product of the per-side SDP compatibility modes, the offerer and who renegotiates (transport layout per m-line
     is decided per side and per description); (3) a seeded stratified sample: each value of each factor appears in
     at least two further configurations."""
     import random
@@ -85,9 +85,11 @@ def select_quick(lattice, seed):
     for c in lattice:
         if any(distance(c, b) <= 1 for b in bases):
             chosen[key(c)] = c
-        for b in bases[1:2]:
+        for b in bases[1:]:
             if all(norm(c)[f] == b[f] for f in FACTORS if f not in ("compatA", "compatB", "offerer", "reneg")):
-                chosen[key(c)] = c
+                # (Srtp with a LegacySip offerer and two media is the open finding KF-C10-2: not multiplied here)
+                if b["mode"] == "Rtp" or norm(c)["compat" + c["offerer"]] == "Standard":
+                    chosen[key(c)] = c
     for f in FACTORS:
         vals = {}
         for c in lattice:
@@ -101,7 +103,7 @@ def select_quick(lattice, seed):
 
 def select_thorough(lattice, seed):
     """every direct-mode point (per-side SDP compatibility / rtcp-mux / latching decide the transport layout there),
-    every WebRtc point within two factors of the default, and a seeded third of the remaining WebRtc points
+    every WebRtc point within two factors of the default, and a seeded half of the remaining WebRtc points
     (C10_FULL=1: the whole lattice, about 1.5 h)."""
     import random
     if os.environ.get("C10_FULL") == "1":
@@ -109,7 +111,7 @@ def select_thorough(lattice, seed):
     rnd = random.Random(seed)
     out = []
     for c in lattice:
-        if c["mode"] != "WebRtc" or distance(c, DEFAULT) <= 2 or rnd.random() < 1 / 3:
+        if c["mode"] != "WebRtc" or distance(c, DEFAULT) <= 2 or rnd.random() < 1 / 2:
             out.append(c)
     return out
 
@@ -240,7 +242,7 @@ def confirm(ck, sc, rule):
 
 
 def lattice_from_tlc(ck):
-    cfg = os.path.join(vlib.SPEC, "MC_LifecyclePair_emit.gen.cfg")
+    cfg = os.path.join(vlib.SPEC, f"MC_LifecyclePair_emit_{os.getpid()}.gen.cfg")
     mc_cfg(cfg, emit=True, liveness=True)
     sink = os.path.join(ck.dir, "lattice.ndjson")
     res = vlib.tlc("MC_LifecyclePair", os.path.basename(cfg), tags=("CFG",), sinks={"CFG": sink}, timeout=1200,
@@ -351,7 +353,7 @@ def selftest():
     for dev, inv in {"SdesBeforeLocalAnswer": "NeverFailed", "EqualRoles": "RolesComplementary",
                      "SctpNeedsStoredRemote": "ConnectsAndDelivers",
                      "RenegRestartsTransport": "StaysConnected"}.items():
-        cfg = os.path.join(vlib.SPEC, f"MC_LifecyclePair_self_{dev}.gen.cfg")
+        cfg = os.path.join(vlib.SPEC, f"MC_LifecyclePair_self_{dev}_{os.getpid()}.gen.cfg")
         mc_cfg(cfg, devs=[dev], liveness=(inv == "ConnectsAndDelivers"))
         res = vlib.tlc("MC_LifecyclePair", os.path.basename(cfg), workers=4, timeout=600, tag=f"selfpair_{dev}")
         os.remove(cfg)
@@ -405,7 +407,7 @@ def selftest():
     # moved in front of the DTLS key derivation is flagged by Trace_Stack
     for dev, prop in {"KeysBeforeDtls": "KeysAfterDtls", "SctpBeforeDtls": "SctpAfterDtls",
                       "OpenBeforeSctp": "OpenAfterSctp", "ConnectedEarly": "ConnectedAfterAll"}.items():
-        cfg = os.path.join(vlib.SPEC, f"MC_Stack_self_{dev}.gen.cfg")
+        cfg = os.path.join(vlib.SPEC, f"MC_Stack_self_{dev}_{os.getpid()}.gen.cfg")
         with open(cfg, "w") as f:
             f.write(f'SPECIFICATION Spec\nCONSTANTS\n  Mode = "WebRtc"\n  Deviations = {{"{dev}"}}\n'
                     "PROPERTIES KeysAfterDtls SctpAfterDtls OpenAfterSctp ConnectedAfterAll DtlsAfterStart\n"
